@@ -198,7 +198,6 @@ impl AdjustHeightsHeap {
 //@ impl: impl AdjustHeightsHeap
 //@ name: ensure_height_requirement
 //@ as: fn ensure_height_requirement(&mut self, original_child: &NodeRef, original_parent: &NodeRef, child: &NodeRef, parent: &NodeRef)
-//@ rule R8: `crate::rc_thin_ptr_eq(` => `rc_thin_ptr_eq(` x1
 //@ props: C19
 //@ contract:
 //@|     requires
@@ -217,7 +216,6 @@ impl AdjustHeightsHeap {
 //@ impl: impl AdjustHeightsHeap
 //@ name: ensure_height_requirement
 //@ as: fn ensure_height_requirement__cycle_must_panic(&mut self, original_child: &NodeRef, original_parent: &NodeRef, child: &NodeRef, parent: &NodeRef)
-//@ rule R8: `crate::rc_thin_ptr_eq(` => `rc_thin_ptr_eq(` x1
 //@ panics: diverge
 //@ props: C19
 //@ contract:
@@ -232,7 +230,6 @@ impl AdjustHeightsHeap {
 //@ impl: impl AdjustHeightsHeap
 //@ name: ensure_height_requirement
 //@ as: fn ensure_height_requirement__too_high_must_panic(&mut self, original_child: &NodeRef, original_parent: &NodeRef, child: &NodeRef, parent: &NodeRef)
-//@ rule R8: `crate::rc_thin_ptr_eq(` => `rc_thin_ptr_eq(` x1
 //@ rule R8: `self.set_height(parent,` => `self.set_height__must_panic(parent,` x1
 //@ panics: diverge
 //@ props: C19
